@@ -180,6 +180,70 @@ def crlfToLf : Bytes → Bytes
   | [x] => [x]
   | x :: y :: r => if x = 13 ∧ y = 10 then 10 :: crlfToLf r else x :: crlfToLf (y :: r)
 
+/-! ### the writer's side: which encoding the bytes of a saved document get and what its header says
+
+`Drawing.save/saveas/write`: `update_all()` -> `_update_metadata()` sets `header["$DWGCODEPAGE"] = tocodepage(self.encoding)`
+- for every document, loaded or new, whatever the header said before -, `$ACADVER` is the document version, and the
+stream is encoded with `output_encoding` = `"utf-8" if dxfversion >= DXF2007 else self.encoding`. -/
+
+/-- the shape of the writer's decision logic as regenerate extracts it from the AST of document.py -/
+structure WriterRules where
+  /-- `_update_metadata` assigns `self.header["$DWGCODEPAGE"]` exactly once, as a top-level statement (no condition) -/
+  cpUnconditional : Bool
+  /-- the assigned value is `tocodepage(self.encoding)` -/
+  cpFromEncoding : Bool
+  /-- `output_encoding` returns `"utf-8" if self.dxfversion >= DXF2007 else self.encoding`, and DXF2007 = "AC1021" -/
+  outputEncoding : Bool
+  /-- `save` opens the file with `self.output_encoding` (unless the caller overrides it) and errors="dxfreplace",
+      `write` hands `self.output_encoding` to the binary tag writer -/
+  saveUsesOutputEncoding : Bool
+  /-- `write` calls `update_all`, which calls `_update_metadata` -/
+  metadataOnWrite : Bool
+  deriving DecidableEq, Repr
+
+def writerAsModelled : WriterRules := ⟨true, true, true, true, true⟩
+
+/-- what the writer looks at -/
+structure DocState where
+  /-- `_loaded_dxfversion is not None` -/
+  loaded : Bool
+  /-- `doc.dxfversion` -/
+  version : Str
+  /-- `doc.encoding` (read/write attribute) -/
+  encoding : Str
+  /-- `doc.header["$DWGCODEPAGE"]` before the save (the value of the loaded file, or of an earlier save) -/
+  headerCp : Str
+
+/-- what ends up in the file -/
+structure Written where
+  acadver : Str
+  codepage : Str
+  /-- the codec the text stream / the binary tag writer encodes with -/
+  bytesEncoding : Str
+  deriving DecidableEq, Repr
+
+def writeDoc (encToCp : Dict) (s : DocState) : Written :=
+  { acadver := s.version
+    codepage := tocodepage encToCp s.encoding
+    bytesEncoding := if strLt s.version ac1021 then s.encoding else utf8Name }
+
+/-- `Drawing._load_section_dict`: version from $ACADVER, `encoding = toencoding(header["$DWGCODEPAGE"])` -/
+def loadDoc (cpToEnc : Dict) (w : Written) : DocState :=
+  { loaded := true, version := w.acadver, encoding := toencoding cpToEnc w.codepage, headerCp := w.codepage }
+
+/-! ### `BinaryTagWriter.write_str`: preformatted `"code\\nvalue\\n..."` strings (header variables, custom properties,
+r12writer) are split again: `for code, value in take2(s.split("\\n"))` -/
+
+/-- `take2`: consecutive pairs; an odd last element is dropped -/
+def take2 : List Str → List (Str × Str)
+  | a :: b :: r => (a, b) :: take2 r
+  | _ => []
+
+def writeStrTags (s : Str) : List (Str × Str) := take2 (splitOn 10 s)
+
+/-- the preformatted string of a list of (code line, value) tags -/
+def tagLines (tags : List (Str × Str)) : Str := tags.flatMap (fun t => t.1 ++ [10] ++ t.2 ++ [10])
+
 /-! ### vocabulary of the per-code-page round trip theorems -/
 
 /-- BMP, no U+DC80..DCFF (these are raw bytes by PEP 383), no literal `\U+XXXX` match -/
